@@ -37,10 +37,11 @@ const (
 	fAggIDQuery
 	fKindBBTail
 	fAggBBTail
+	fIDTail // watch of one resource replaying its last two events
 	nFlavours
 )
 
-var fNames = []string{"watch-id", "watch-kind", "watch-kind-agg", "watch-kind-bootstrap", "watch-kind-agg-bootstrap", "watch-kind-label-selector", "watch-kind-agg-id-selector", "watch-kind-bootstrap-bookmark+tail2", "watch-kind-agg-bootstrap-bookmark+tail2"}
+var fNames = []string{"watch-id", "watch-kind", "watch-kind-agg", "watch-kind-bootstrap", "watch-kind-agg-bootstrap", "watch-kind-label-selector", "watch-kind-agg-id-selector", "watch-kind-bootstrap-bookmark+tail2", "watch-kind-agg-bootstrap-bookmark+tail2", "watch-id-tail2"}
 
 type plan struct {
 	fl       flavour
@@ -208,6 +209,8 @@ func startWatch(ctx context.Context, st state.CoreState, fl flavour, s *sink) er
 		err = st.WatchKind(ctx, hx.IntKind(), ch, state.WithBootstrapBookmark(true), state.WithKindTailEvents(2))
 	case fAggBBTail:
 		err = st.WatchKindAggregated(ctx, hx.IntKind(), ach, state.WithBootstrapBookmark(true), state.WithKindTailEvents(2))
+	case fIDTail:
+		err = st.Watch(ctx, hx.IntPtr("a"), ch, state.WithTailEvents(2))
 	}
 	if err != nil {
 		return err
@@ -364,7 +367,7 @@ func body(p plan, x *explore.X) {
 			bookmarked = seen - 2 // two bootstrap Created events without bookmark, then Bootstrapped (bookmarked)
 		case fAggBoot:
 			bookmarked = seen
-		case fKindLabel, fAggIDQuery:
+		case fKindLabel, fAggIDQuery, fIDTail:
 			bookmarked = seen
 		}
 		if bookmarked <= 0 {
@@ -488,7 +491,7 @@ func main() {
 		RequireShims: true,
 		Level:        "fault_enumeration",
 		Technique:    "exhaustive enumeration of transport fault plans (position x mode x repetitions x re-establishment failures x writes during the outage) on the real client adapter and server over an in-process transport, virtual clock, exact quiescence; plus stateless exploration of schedules for selected plans",
-		Rule:         "9 watch flavours (incl. label- and ID-selector watches and bootstrap-bookmark + tail) x fault positions 0..5 x {before message, message lost} x repeat 0..2 x failed re-establishments 0..2 x outage writes 0..2, plus retries disabled, server restarted, history moved on; non-trivial = distinct plans",
+		Rule:         "10 watch flavours (incl. label- and ID-selector watches, bootstrap-bookmark + tail, one resource + tail) x fault positions 0..5 x {before message, message lost} x repeat 0..2 x failed re-establishments 0..2 x outage writes 0..2, plus retries disabled, server restarted, history moved on; non-trivial = distinct plans",
 		Assume:       []string{"transport failures are modelled at the Recv/Watch-call seam the client code sees (Unavailable)", "a restarted server is modelled by replacing the backend with a fresh, shorter log (the bookmark cookie is process-global)"},
 		Extra:        map[string]any{"explanation": "states = fault plans executed; transitions = scheduler steps"},
 	}, build)
